@@ -593,24 +593,43 @@ def _status(ctx, cls, solve_raw):
             return {ast.unparse(k).split(".")[-1]: v for k, v in zip(tbl.keys, tbl.values)}
         return None
 
-    for g in guards:
-        rz = [x for x in g.body if isinstance(x, ast.Raise)][0]
+    # every `raise NoSolutionFoundError`, with the condition it runs under:
+    # (enclosing if, True) when it sits in the body, (enclosing if, False) in the else part
+    raises = []
+    for rz in own_nodes(solve.node):
+        if not isinstance(rz, ast.Raise) or rz.exc is None:
+            continue
         exc = dotted(rz.exc.func if isinstance(rz.exc, ast.Call) else rz.exc)
         if exc != "NoSolutionFoundError":
             continue
+        child, cur = rz, solve.module.parents.get(rz)
+        while cur is not None and cur is not solve.node and not isinstance(cur, ast.If):
+            child, cur = cur, solve.module.parents.get(cur)
+        if isinstance(cur, ast.If):
+            raises.append((cur, child in cur.body))
+    for g, in_body in raises:
         t = g.test
+        pol = in_body
+        while isinstance(t, ast.UnaryOp) and isinstance(t.op, ast.Not):
+            t, pol = t.operand, not pol
         names = None
-        if isinstance(t, ast.Compare) and len(t.ops) == 1 and isinstance(t.ops[0], ast.NotIn) and _is_status(ctx, solve, t.left):
+        if isinstance(t, ast.Compare) and len(t.ops) == 1 and isinstance(t.ops[0], (ast.NotIn, ast.In)) and _is_status(ctx, solve, t.left):
+            raise_when_absent = isinstance(t.ops[0], ast.NotIn) == pol
             comp = ctx.norm.xexpr(solve, t.comparators[0])
             if isinstance(comp, ast.Name) and comp.id in solve.module.assigns:
                 comp = solve.module.assigns[comp.id]
             names = {ast.unparse(e).split(".")[-1] for e in getattr(comp, "elts", [])} or ({ast.unparse(k).split(".")[-1] for k in comp.keys} if isinstance(comp, ast.Dict) else set())
-        elif isinstance(t, ast.Compare) and len(t.ops) == 1 and isinstance(t.ops[0], ast.Is) and ast.unparse(t.comparators[0]) == "None":
-            tb = status_table(t.left)
-            if tb is not None:
-                names = set(tb)
+            if not raise_when_absent:
+                chk.violation("R03.c", solve_raw, t, f"NoSolutionFoundError is raised when the status IS in {sorted(names)}", loc=solve.loc(g))
+                ok = True
+                continue
+        elif isinstance(t, ast.Compare) and len(t.ops) == 1 and isinstance(t.ops[0], (ast.Is, ast.IsNot)) and ast.unparse(t.comparators[0]) == "None":
+            if isinstance(t.ops[0], ast.Is) == pol:
+                tb = status_table(t.left)
+                if tb is not None:
+                    names = set(tb)
         if names is None:
-            raise AnalysisError(f"{solve.loc(g)}: no-solution guard `{ast.unparse(t)[:60]}` not recognised")
+            raise AnalysisError(f"{solve.loc(g)}: no-solution guard `{ast.unparse(g.test)[:60]}` not recognised")
         ok = True
         if names == {"OPTIMAL", "FEASIBLE"}:
             chk.ok("R03.c", solve_raw.qualname, solve.loc(g), "raises NoSolutionFoundError iff status not in {OPTIMAL, FEASIBLE}")
